@@ -395,3 +395,11 @@ PLAN["C16"]["units"] = PLAN["C16"]["units"] + [SB + m for m in ("pop", "push", "
 # C07 "once ... the server has decided to close, the connection's handler finishes": every stream is
 # closed when the protocol is told Closed, however often and from whichever side it is told
 PLAN["C07"]["units"] = PLAN["C07"]["units"] + [HP + "handle"]
+# round 15: the WSGI request handler under C05 (an application failure is not followed by a final
+# body), the constructor of WSStream under C12, the HTTP/1 response head under C11
+PLAN["C05"]["units"] = PLAN["C05"]["units"] + [WW + "handle_http"]
+PLAN["C12"]["units"] = PLAN["C12"]["units"] + [WSU + "__init__"]
+PLAN["C11"]["units"] = PLAN["C11"]["units"] + [H1P + "stream_send"]
+PLAN["C17"]["units"] = PLAN["C17"]["units"] + [UT + "is_asgi"]
+# C01 "for every framing (content-length, chunked ...)": whether a request with a body is kept on HTTP/1
+PLAN["C01"]["units"] = PLAN["C01"]["units"] + [H1P + "_check_protocol"]
